@@ -40,6 +40,16 @@ def _mutants_for(prop):
     return out
 
 
+def _refactors_for(prop):
+    out = []
+    for p in sorted(glob.glob(os.path.join(VERIF, "refactors", "*.diff"))):
+        head = open(p).read(400)
+        m = re.search(r"# properties: ([\w,]+)", head)
+        if m and prop in m.group(1).split(","):
+            out.append({"id": os.path.basename(p)[:-5], "patch": p, "expect": None, "kind": "refactor"})
+    return out
+
+
 def _copy_tree(repo, dst):
     shutil.rmtree(dst, ignore_errors=True)
     subprocess.check_call(["rsync", "-a", "--exclude", "target", "--exclude", ".git", repo.rstrip("/") + "/", dst + "/"])
@@ -65,6 +75,9 @@ def _run_one(prop, repo, mut, idx):
         bad = [o for o in ctx.obs if not o.ok]
         known, fixed = engine.load_known()
         fresh = [o for o in bad if not (o.key in known and (known[o.key].get("sig") is None or known[o.key].get("sig") == o.sig))]
+        if mut["kind"] == "refactor":   # behaviour-preserving variant: every rule must stay silent
+            return dict(mut, status="silent" if not fresh else "FALSE-ALARM", reported=[o.key for o in fresh][:6],
+                        wall_s=round(time.time() - t0, 1))
         hit = [o for o in fresh if o.key.startswith(mut["expect"])] if mut["expect"] else fresh
         return dict(mut, status="detected" if hit else "MISSED", reported=[o.key for o in fresh][:6],
                     named_instance=bool(hit), wall_s=round(time.time() - t0, 1))
@@ -74,7 +87,7 @@ def _run_one(prop, repo, mut, idx):
 
 
 def run(prop, repo, ctx):
-    muts = _mutants_for(prop)
+    muts = _mutants_for(prop) + _refactors_for(prop)
     results = []
     facts.build_driver()
     with concurrent.futures.ThreadPoolExecutor(max_workers=WORKERS) as ex:
@@ -85,18 +98,20 @@ def run(prop, repo, ctx):
             except Exception as e:  # never let the self-test hide behind an exception
                 results.append({"id": "?", "status": "broken", "why": repr(e)})
     detected = [r for r in results if r["status"] == "detected"]
-    missed = [r for r in results if r["status"] == "MISSED"]
+    missed = [r for r in results if r["status"] in ("MISSED", "FALSE-ALARM")]
+    silent = [r for r in results if r["status"] == "silent"]
     skipped = [r for r in results if r["status"] in ("skipped", "broken")]
     lines = []
     for r in results:
         lines.append("SELFTEST %s %s %s%s" % (prop, r.get("id"), r["status"], (" (" + r.get("why", "") + ")") if r.get("why") else ""))
     cov = {
         "what": "checker self-validation: each seeded variant of the analysed tree must make this property's rules report the seeded instance",
-        "variants": len(results), "detected": len(detected), "missed": [r["id"] for r in missed],
+        "variants": len(results), "detected": len(detected), "refactors_silent": len(silent),
+        "missed_or_false_alarm": [r["id"] + ":" + r["status"] for r in missed],
         "skipped": [{"id": r.get("id"), "why": r.get("why")} for r in skipped],
         "results": [{k: v for k, v in r.items() if k != "patch"} for r in results],
     }
     if missed:
-        lines.append("CHECKER-SELFTEST-FAILED property=%s: rules did not fire on %s" % (prop, [r["id"] for r in missed]))
+        lines.append("CHECKER-SELFTEST-FAILED property=%s: %s" % (prop, [r["id"] + ":" + r["status"] for r in missed]))
         return 2, lines, cov
     return 0, lines, cov
